@@ -286,6 +286,9 @@ benign('B-begin-does-not-repeat-the-resets-of-finish-and-discard', ['C01', 'C09'
         debug_assert!(!self.blocked_by_beneficiary, "previous incarnation was not finished");
 """, ""),
 ])
+mutant('SIB-balance-change-copies-previous-info-after-taking-it', ['C10'], [
+    ('src/parallel_state.rs', "        let previous_info = self.account.clone();\n        let mut info = self.account.take().unwrap_or_default();", "        let mut info = self.account.take().unwrap_or_default();\n        let previous_info = self.account.clone();"),
+], ['|SIB|'])
 mutant('K1-snapshot-only-code-changed', ['C01'], [
     (I, "account_snapshot.is_none_or(|basic| basic.code_hash != Some(info.code_hash));", "account_snapshot.is_some_and(|basic| basic.code_hash != Some(info.code_hash));"),
 ], ['|D2|', '|K1|'])
